@@ -6,6 +6,11 @@ props = [json.loads(l) for l in open(os.path.join(root, "properties.jsonl"))]
 
 # id -> (category, text, design_ref, note, technique)
 claimed = {
+ "C05": ("exploration",
+         "Property-based test with a reference ranking: Accept headers are generated from a grammar (ranges, q-values with ties, parameters before/after q, optional spaces), the expected Content-Type is computed from the structured header by the rule of the statement, and each request is repeated 12 times as rendered and with whitespace stripped; every response must be 200 with exactly the expected type and a body that decodes with the codec it names. Three registered-writer configurations run as separate processes.",
+         "DESIGN.md §5 C05",
+         "The registry cannot be reset through the API, hence one process per configuration. q=0, invalid q syntax, non-SP whitespace and partial wildcards overlapping Produces are outside the grammar.",
+         "property-based testing (rapid): grammar-based generation + reference ranking + metamorphic whitespace relation"),
  "C17": ("exploration",
          "Property-based test tying three computations together: for generated tables and URLs the routable method set is measured by probing the real container with every method; every 405's Allow set and the OPTIONS filter's Allow / Access-Control-Allow-Methods sets must equal it, the filter must answer OPTIONS itself and leave other methods untouched (twin container).",
          "DESIGN.md §5 C17",
